@@ -20,6 +20,7 @@ caller can pass.
 -/
 import Proofs.TableTrackWf
 import Proofs.TableLists
+import Proofs.TableListsWf
 
 namespace EngineModel.Properties.C18
 open EngineModel EngineModel.Table
@@ -164,6 +165,20 @@ theorem C18_entity_missing_row_errors {st : LStmts} (ha : alignedL st = true) {d
     (h : d.pe.find? (fun x => x .listId == .int l && rowId .id x == e) = none) :
     eRemove st d l e = (d, .throw .invalid_argument) :=
   entity_remove_missing ha h
+
+/-- **Histories (list tables).**  The invariant the playlist round trip assumes
+holds after every sequence of playlist add / update / remove and entity
+add_back / remove / clear, from any state that satisfies it. -/
+theorem C18_list_histories {st : LStmts} (ha : alignedL st = true) {d : LDb} (hwf : d.Wf) (ops : List LOp) :
+    (lRun st d ops).Wf :=
+  wf_lRun ha hwf ops
+
+/-- The playlist round trip after any history from the empty tables, for the
+statements of the current source. -/
+theorem C18_playlist_roundtrip_current (ops : List LOp) (r : Row PField) (hr : wtRowP r) (d' : LDb) (i : Int)
+    (h : pAdd genLStmts (lRun genLStmts LDb.empty ops) r = (d', .ok i)) :
+    pGet genLStmts d' i = .ok (some (normRowP i r)) :=
+  playlist_add_get C18_list_bindings_aligned (wf_lRun C18_list_bindings_aligned LDb.empty_wf ops) hr h
 
 /-- An entity row. -/
 def exEntity (l t : Int) (u : Bytes) (m : Int) : Row EField := fun f =>
